@@ -45,8 +45,19 @@ MOD_FUNCS = {
 }
 
 
+# properties anchored in pyemv/tlv.py: the translated decoder / encoder and their refinement theorems
+TLV_FUNCS = {
+    "C09": ["tlv_decode", "decode_loop_eq"],
+    "C17": ["tlv_decode", "decode_loop_eq"],
+    "C10": ["tlv_encode", "encode_for_eq"],
+    "C18": ["tlv_decode", "decode_loop_eq", "tlv_encode", "encode_for_eq"],
+    "C14": ["tlv_decode", "tlv_encode"],
+}
+
+
 def gen_obligations(pid):
     out = ["Pyemv.ModRefines." + n for n in MOD_FUNCS.get(pid, [])]
+    out += ["Pyemv.TlvRefines." + n for n in TLV_FUNCS.get(pid, [])]
     if pid == "C08":
         out += json.load(open(os.path.join(LEAN, "obligations.json"))).get("C08_gen", [])
     return out
@@ -69,6 +80,8 @@ def lake_build(pid):
             jobs.append(("translate_py.py", "ModGen.lean", "PyemvGen.ModRefines", "ModRefines"))
         if pid == "C08":
             jobs.append(("translate_cvn.py", "CvnGen.lean", "PyemvGen.CvnRefines", "CvnRefines"))
+        if pid in TLV_FUNCS:
+            jobs.append(("translate_tlv.py", "TlvGen.lean", "PyemvGen.TlvRefines", "TlvRefines"))
         for script, out, target, tag in jobs:
             t = sh([sys.executable, os.path.join(core.HERE, script), core.REPO, os.path.join(LEAN, "PyemvGen", out)])
             if t.returncode != 0:
@@ -116,6 +129,8 @@ def audit(pid, workdir, broken=()):
         imports += "import PyemvGen.ModRefines\n"
     if any(".CvnRefines." in n for n in printable):
         imports += "import PyemvGen.CvnRefines\n"
+    if any(".TlvRefines." in n for n in printable):
+        imports += "import PyemvGen.TlvRefines\n"
     path = os.path.join(workdir, f"Audit_{pid}.lean")
     with open(path, "w") as f:
         f.write(imports + "".join(f"#print axioms {n}\n" for n in printable))
